@@ -224,13 +224,29 @@ func genScript(g *vh.Gen, streams [][]byte) (script, ml, rl, msl string) {
 
 var lastAddrs []string
 
+// secondMsgRules draws the rule table of a second, Go-implemented listener on before.message_stored, registered
+// AFTER the Lua host: for some subjects it answers with the message exactly as it was handed it, redirected to one
+// mailbox. It is consulted only when the Lua handler did not answer, and must then see the message untouched.
+func secondMsgRules(g *vh.Gen) string {
+	var ls []string
+	for _, s := range []string{"hello", "Re: test 1", ""} {
+		if g.Chance(0.5) {
+			ls = append(ls, vh.HS(s)+"=R"+vh.HS(g.Pick("second-box", "audit", "alice")))
+		}
+	}
+	if len(ls) == 0 {
+		return "-"
+	}
+	return strings.Join(ls, ",")
+}
+
 func gen(g *vh.Gen) {
 	o := smtpd.Opts{Garbage: 0.05, MaxBody: 40}
 	for i := 0; i < g.N(250, 5000); i++ {
 		c, pool := smtpd.GenCfg(g, o)
 		stream := smtpd.GenDialogue(g, c, pool[:3], o)
 		script, ml, rl, msl := genScript(g, [][]byte{stream})
-		g.Emit("lua", append(c.Fields(), vh.H(stream), vh.HS(script), ml, rl, msl, secondRules(g, lastAddrs), secondRules(g, lastAddrs))...)
+		g.Emit("lua", append(c.Fields(), vh.H(stream), vh.HS(script), ml, rl, msl, secondRules(g, lastAddrs), secondRules(g, lastAddrs), secondMsgRules(g))...)
 	}
 	for i := 0; i < g.N(20, 400); i++ { // concurrent sessions against one host
 		c, pool := smtpd.GenCfg(g, o)
@@ -243,7 +259,7 @@ func gen(g *vh.Gen) {
 			hs[j] = vh.H(streams[j])
 		}
 		script, ml, rl, msl := genScript(g, streams)
-		g.Emit("luapar", append(c.Fields(), strings.Join(hs, "+"), vh.HS(script), ml, rl, msl, secondRules(g, lastAddrs), secondRules(g, lastAddrs))...)
+		g.Emit("luapar", append(c.Fields(), strings.Join(hs, "+"), vh.HS(script), ml, rl, msl, secondRules(g, lastAddrs), secondRules(g, lastAddrs), secondMsgRules(g))...)
 	}
 }
 
@@ -293,6 +309,23 @@ func exec(kind string, in []string) []string {
 				return nil
 			}
 			return r2[s.To[len(s.To)-1].Address]
+		})
+	}
+	if len(in) > smtpd.NFields+7 && in[smtpd.NFields+7] != "-" {
+		redirect := map[string]string{}
+		for _, e := range strings.Split(in[smtpd.NFields+7], ",") {
+			kv := strings.SplitN(e, "=", 2)
+			redirect[vh.US(kv[0])] = vh.US(kv[1][1:])
+		}
+		env.Host.Events.BeforeMessageStored.AddListener("second", func(m event.InboundMessage) *event.InboundMessage {
+			mb, ok := redirect[m.Subject]
+			if !ok {
+				return nil
+			}
+			// the message as this listener sees it, redirected
+			r := m
+			r.Mailboxes = []string{mb}
+			return &r
 		})
 	}
 	outs := make([][]byte, len(streams))
